@@ -1780,11 +1780,13 @@ func (sc *serverConn) closeStream(st *stream, err error) {
 		}
 	}
 	if p := st.body; p != nil {
-		// Return any buffered unread bytes worth of conn-level flow control.
-		// See golang.org/issue/16481
-		sc.sendWindowUpdate(nil, p.Len())
-
 		p.CloseWithError(err)
+
+		// Return any buffered unread bytes worth of conn-level flow control,
+		// exactly once: drop them from the pipe, since bytes the handler could
+		// still read would be credited again by noteBodyRead.
+		// See golang.org/issue/16481
+		sc.sendWindowUpdate(nil, p.discardUnread())
 	}
 	if e, ok := err.(StreamError); ok {
 		if e.Cause != nil {
